@@ -64,7 +64,7 @@ class C15(Prop):
 
     def oracle(self, tier, rng, suspicious):
         """model-free: real expansions of the members of a group against each other"""
-        results = R.run_cases(self.cases(tier, rng))
+        results = self.l1_results or R.run_cases(self.cases(tier, rng))
         groups = {}
         for r in results:
             groups.setdefault(r.meta['gid'], {})[r.meta['role']] = r
